@@ -925,6 +925,7 @@ class SparseArray:
                         else:
                             raise IndexError(f'column index can be at most 1-d, not {nd}-d')
                     elif dtype is bool:
+                        if get_ndim(n) == 0: n = [n for i in m]
                         if vd == 0:
                             if value:
                                 for i, j in zip(m, n): 
